@@ -51,6 +51,7 @@ type Contract struct {
 	Trusted     bool
 	MemWrites   bool
 	Guards      []*Guard
+	Rely        []*Clause // assumed after every blocking point (other steps have run meanwhile); old() = just before blocking
 	Invariants  []*Clause // closures passed to Range: hold before and after every invocation
 	DeadReturns map[int]bool // return sites declared unreachable (defensive code)
 	LoopInv     map[int][]*Clause
@@ -114,6 +115,11 @@ func (c *Contract) AllTags() []string {
 			m[t] = true
 		}
 	}
+	for _, cl := range c.Rely {
+		for _, t := range cl.Tags {
+			m[t] = true
+		}
+	}
 	for _, cls := range c.LoopInv {
 		for _, cl := range cls {
 			for _, t := range cl.Tags {
@@ -143,7 +149,7 @@ func (c *Contract) AllTags() []string {
 
 var keywords = map[string]bool{"func": true, "requires": true, "ensures": true, "assigns": true, "nopanic": true,
 	"inline": true, "trusted": true, "loop": true, "at": true, "spec": true, "pred": true, "ghost": true,
-	"lemma": true, "assumption": true, "memwrites": true, "tags": true, "let": true, "guarded": true, "invariant": true, "opaque": true, "deadreturn": true}
+	"lemma": true, "assumption": true, "rely": true, "memwrites": true, "tags": true, "let": true, "guarded": true, "invariant": true, "opaque": true, "deadreturn": true}
 
 // Guard: fields of the receiver that may only be accessed while Mutex is held.
 type Guard struct {
@@ -326,12 +332,17 @@ func (cs *contractSet) parseFile(root, file string) error {
 				g.Fields = append(g.Fields, strings.TrimSpace(f))
 			}
 			cur.Guards = append(cur.Guards, g)
-		case "requires", "ensures", "invariant":
+		case "requires", "ensures", "invariant", "rely":
 			cl, err := parseClause(rest, file, c.line)
 			if err != nil {
 				return err
 			}
-			if word == "invariant" {
+			if word == "rely" {
+				if cl.Label == "" {
+					cl.Label = fmt.Sprintf("y%d", len(cur.Rely))
+				}
+				cur.Rely = append(cur.Rely, cl)
+			} else if word == "invariant" {
 				if cl.Label == "" {
 					cl.Label = fmt.Sprintf("v%d", len(cur.Invariants))
 				}
